@@ -350,6 +350,12 @@ func checkC12(c *ev.Ctx) {
 		c.Set("local_mode_slot_streams", nl)
 		os.RemoveAll(piv.dir)
 	}
+	// huge comments in add-hardware-certificate requests, each followed by a slot listing and a list request on the same
+	// connection (a refusal that cannot be framed would shift every later response by one)
+	for _, f := range []string{"hardcert-new-absent-key-comment5MiB-nul", "hardcert-new-absent-key-comment5MiB-ff", "hardcert-new-held-key-comment5MiB-nul"} {
+		c12Run(c, c12Case{Pieces: []c12Piece{{Frame: f}, {Frame: "list-slots"}, {Frame: "list"}}, Note: "huge comment, then two more requests"}, false)
+		n++
+	}
 	// several large requests on ONE connection, in every order of sizes (per-connection buffers reused across requests)
 	{
 		multi := []string{"sign-k1-body5000", "sign-k1-body6000", "lock-pass6000", "unlock-wrong-pass7000-embedded-frames", "sign-cert", "sign-k1-body65536", "sign-k1-body262145", "sign-k1-body1048576"}
